@@ -48,6 +48,7 @@ def run(ctx, repo):
     ctx.call(R6B.r_constructor_kind_checked, repo, ['loader.FullLoader'])
     ctx.call(RSTATE.r_directives_reset, repo)
     ctx.call(R6B.r_no_import_machinery, repo)
+    ctx.call(R6B.r_no_module_getattr, repo)
 
 
 if __name__ == '__main__':
